@@ -52,7 +52,7 @@ func TestC02_ByteBufferTransfers(t *testing.T) {
 
 		wb, rb := sonic.NewByteBuffer(), sonic.NewByteBuffer()
 		var appended, reported, peerGot int64 // local -> peer stream: appended to wb, reported written, verified at the peer
-		var peerSent, received int64         // peer -> local stream: written by the peer, verified in rb
+		var peerSent, received int64          // peer -> local stream: written by the peer, verified in rb
 		asyncW, asyncR := false, false
 		partialWouldBlock, asyncFromPoller, asyncReadDeferred := 0, 0, 0
 		var trace []string
